@@ -195,7 +195,7 @@ func Encodable(t *Type, v Value, proto int) bool {
 	}
 	switch t.Kind {
 	case List, Set, Map:
-		if proto < 3 && len(v.Elems) > 65535*2 {
+		if n := len(v.Elems); proto < 3 && ((t.Kind == Map && n > 65535*2) || (t.Kind != Map && n > 65535)) {
 			return false
 		}
 		for i, e := range v.Elems {
